@@ -71,6 +71,9 @@ func (s SCTP) SerializeTo(b gopacket.SerializeBuffer, opts gopacket.SerializeOpt
 		// passes back a singleton on every other call, so this shouldn't cause
 		// excessive memory allocation.
 		binary.LittleEndian.PutUint32(bytes[8:12], crc32.Checksum(b.Bytes(), crc32.MakeTable(crc32.Castagnoli)))
+	} else {
+		// PrependBytes does not zero its result: always write the checksum field.
+		binary.BigEndian.PutUint32(bytes[8:12], s.Checksum)
 	}
 	return nil
 }
